@@ -280,6 +280,12 @@ impl State {
             self.stack.push(Branch { pc, ix, nsave });
             self.nsave = 0;
             self.trace_stack("push");
+            #[cfg(all(fancy_regex_verif, feature = "std"))]
+            verif_hooks::observe(
+                verif_hooks::Op::Push { pc, ix },
+                &self.saves,
+                self.stack.len(),
+            );
             Ok(())
         } else {
             Err(Error::RuntimeError(RuntimeError::StackOverflow))
@@ -295,6 +301,12 @@ impl State {
         let Branch { pc, ix, nsave } = self.stack.pop().unwrap();
         self.nsave = nsave;
         self.trace_stack("pop");
+        #[cfg(all(fancy_regex_verif, feature = "std"))]
+        verif_hooks::observe(
+            verif_hooks::Op::Pop { pc, ix },
+            &self.saves,
+            self.stack.len(),
+        );
         (pc, ix)
     }
 
@@ -395,6 +407,12 @@ impl State {
         self.stack.truncate(count);
         self.oldsave.truncate(oldsave_ix);
         self.nsave = oldsave_ix - oldsave_start;
+        #[cfg(all(fancy_regex_verif, feature = "std"))]
+        verif_hooks::observe(
+            verif_hooks::Op::Cut { count },
+            &self.saves,
+            self.stack.len(),
+        );
     }
 
     #[inline]
@@ -439,6 +457,14 @@ pub(crate) fn run(
     options: &RegexOptions,
 ) -> Result<Option<Vec<usize>>> {
     let mut state = State::new(prog.n_saves, MAX_STACK, option_flags);
+    #[cfg(all(fancy_regex_verif, feature = "std"))]
+    verif_hooks::observe(
+        verif_hooks::Op::Start {
+            n_saves: prog.n_saves,
+        },
+        &state.saves,
+        0,
+    );
     let mut inner_slots: Vec<Option<NonMaxUsize>> = Vec::new();
     let look_matcher = LookMatcher::new();
     #[cfg(feature = "std")]
@@ -752,6 +778,64 @@ pub(crate) fn run(
 #[doc(hidden)]
 pub mod verif_hooks {
     use super::State;
+    #[cfg(feature = "std")]
+    use alloc::boxed::Box;
+    #[cfg(feature = "std")]
+    use core::cell::RefCell;
+
+    /// An operation on the backtracking state of a real run, reported to the observer
+    /// after it has been carried out.
+    #[derive(Debug, Clone, Copy)]
+    pub enum Op {
+        /// A search starts with a fresh state of `n_saves` slots.
+        Start {
+            /// Number of slots of the program.
+            n_saves: usize,
+        },
+        /// An alternative was created.
+        Push {
+            /// Program counter to resume at.
+            pc: usize,
+            /// Text position to resume at.
+            ix: usize,
+        },
+        /// The current alternative was abandoned and this one resumed.
+        Pop {
+            /// Program counter resumed at.
+            pc: usize,
+            /// Text position resumed at.
+            ix: usize,
+        },
+        /// Alternatives above `count` were discarded (commit).
+        Cut {
+            /// Number of alternatives kept.
+            count: usize,
+        },
+    }
+
+    /// Observer: (operation, the saves vector after it, number of alternatives after it).
+    #[cfg(feature = "std")]
+    pub type Observer = Box<dyn FnMut(Op, &[usize], usize)>;
+
+    #[cfg(feature = "std")]
+    std::thread_local! {
+        static OBSERVER: RefCell<Option<Observer>> = RefCell::new(None);
+    }
+
+    /// Install (or remove) the observer of this thread.
+    #[cfg(feature = "std")]
+    pub fn set_observer(o: Option<Observer>) {
+        OBSERVER.with(|c| *c.borrow_mut() = o);
+    }
+
+    #[cfg(feature = "std")]
+    pub(super) fn observe(op: Op, saves: &[usize], depth: usize) {
+        OBSERVER.with(|c| {
+            if let Some(f) = c.borrow_mut().as_mut() {
+                f(op, saves, depth);
+            }
+        });
+    }
 
     /// The VM's backtracking state.
     #[allow(missing_debug_implementations)]
